@@ -30,6 +30,10 @@ __CPROVER_ensures((*pos == VF_IOS_cur && GOOD0) ==> ST->pos == POS0 + (long)(nBy
 __CPROVER_ensures((*pos == VF_IOS_cur && GOOD0 && AVAIL0 < nByteToRead) ==> (ST->eof && ST->fail))
 /*@ C16 : readFile.failed-stream-reads-nothing */
 __CPROVER_ensures((*pos == VF_IOS_cur && !GOOD0) ==> (ST->fail && ST->pos == POS0))
+/*@ C16 : readFile.position-stays-bounded */
+__CPROVER_ensures(ST->pos <= (POS0 > 0 ? POS0 : 0) + 0x80000000L + (long)VF_MAXFILE + 0x100)
+/*@ C02 C16 : readFile.complete-read-keeps-stream-good */
+__CPROVER_ensures((*pos == VF_IOS_cur && GOOD0 && AVAIL0 >= nByteToRead) ==> (!ST->eof && !ST->fail))
 /*@ C16 : readFile.work-bounded */ __CPROVER_ensures(ST->work <= __CPROVER_old(ST->work) + nByteToRead)
 /*@ C16 C10 : readFile.nothrow */ __CPROVER_ensures(vf_exc == 0);
 
@@ -61,7 +65,17 @@ __CPROVER_ensures((*pos == VF_IOS_cur && GOOD0) ==> ST->pos == POS0 + (long)(nBy
 __CPROVER_ensures(nByteToRead == 1 ==> __CPROVER_return_value <= 255)
 /*@ C16 : readUint.word-fits-width */
 __CPROVER_ensures(nByteToRead == 2 ==> __CPROVER_return_value <= 65535)
+/*@ C16 : readUint.failed-stream-reads-nothing */
+__CPROVER_ensures((*pos == VF_IOS_cur && !GOOD0) ==> (ST->fail && ST->pos == POS0))
+/*@ C16 : readUint.position-stays-bounded */
+__CPROVER_ensures(ST->pos <= (POS0 > 0 ? POS0 : 0) + 0x80000000L + (long)VF_MAXFILE + 0x100)
+/*@ C02 C16 : readUint.complete-read-keeps-stream-good */
+__CPROVER_ensures((*pos == VF_IOS_cur && GOOD0 && AVAIL0 >= nByteToRead) ==> (!ST->eof && !ST->fail))
 /*@ C16 : readUint.work-bounded */ __CPROVER_ensures(ST->work <= __CPROVER_old(ST->work) + nByteToRead)
+#ifdef VF_TRACK_ALLOC
+/*@ C16 : readUint.allocation-bounded */
+__CPROVER_ensures(vf_max_alloc <= (__CPROVER_old(vf_max_alloc) > 5 ? __CPROVER_old(vf_max_alloc) : 5))
+#endif
 /*@ C16 C10 : readUint.nothrow */ __CPROVER_ensures(vf_exc == 0);
 
 void h_readUint(void)
@@ -88,7 +102,17 @@ __CPROVER_ensures((*pos == VF_IOS_cur && GOOD0 && nByteToRead == 2 && AVAIL0 >= 
 __CPROVER_ensures((*pos == VF_IOS_cur && GOOD0) ==> ST->pos == POS0 + (long)(nByteToRead < AVAIL0 ? nByteToRead : AVAIL0))
 /*@ C16 : readInt.byte-range */
 __CPROVER_ensures(nByteToRead == 1 ==> (__CPROVER_return_value >= -128 && __CPROVER_return_value <= 127))
+/*@ C16 : readInt.failed-stream-reads-nothing */
+__CPROVER_ensures((*pos == VF_IOS_cur && !GOOD0) ==> (ST->fail && ST->pos == POS0))
+/*@ C16 : readInt.position-stays-bounded */
+__CPROVER_ensures(ST->pos <= (POS0 > 0 ? POS0 : 0) + 0x80000000L + (long)VF_MAXFILE + 0x100)
+/*@ C02 C16 : readInt.complete-read-keeps-stream-good */
+__CPROVER_ensures((*pos == VF_IOS_cur && GOOD0 && AVAIL0 >= nByteToRead) ==> (!ST->eof && !ST->fail))
 /*@ C16 : readInt.work-bounded */ __CPROVER_ensures(ST->work <= __CPROVER_old(ST->work) + nByteToRead)
+#ifdef VF_TRACK_ALLOC
+/*@ C16 : readInt.allocation-bounded */
+__CPROVER_ensures(vf_max_alloc <= (__CPROVER_old(vf_max_alloc) > 5 ? __CPROVER_old(vf_max_alloc) : 5))
+#endif
 /*@ C16 C10 : readInt.nothrow */ __CPROVER_ensures(vf_exc == 0);
 
 void h_readInt(void)
@@ -111,6 +135,12 @@ __CPROVER_ensures((*pos == VF_IOS_cur && GOOD0 && AVAIL0 >= 4) ==>
                   vf_bits_of(__CPROVER_return_value) == (IMG((size_t)POS0) | (IMG((size_t)POS0 + 1) << 8) | (IMG((size_t)POS0 + 2) << 16) | (IMG((size_t)POS0 + 3) << 24)))
 /*@ C02 : readFloat.position-advances */
 __CPROVER_ensures((*pos == VF_IOS_cur && GOOD0) ==> ST->pos == POS0 + (long)(4 < AVAIL0 ? 4 : AVAIL0))
+/*@ C16 : readFloat.failed-stream-reads-nothing */
+__CPROVER_ensures((*pos == VF_IOS_cur && !GOOD0) ==> (ST->fail && ST->pos == POS0))
+/*@ C16 : readFloat.position-stays-bounded */
+__CPROVER_ensures(ST->pos <= (POS0 > 0 ? POS0 : 0) + 0x80000000L + (long)VF_MAXFILE + 0x100)
+/*@ C02 C16 : readFloat.complete-read-keeps-stream-good */
+__CPROVER_ensures((*pos == VF_IOS_cur && GOOD0 && AVAIL0 >= 4) ==> (!ST->eof && !ST->fail))
 /*@ C16 : readFloat.work-bounded */ __CPROVER_ensures(ST->work <= __CPROVER_old(ST->work) + 4)
 /*@ C16 C10 : readFloat.nothrow */ __CPROVER_ensures(vf_exc == 0);
 
@@ -138,7 +168,17 @@ __CPROVER_ensures((*pos == VF_IOS_cur && GOOD0 && AVAIL0 >= nByteToRead && vf_gc
                   IMG((size_t)POS0 + vf_gc) == 0)
 /*@ C02 : readString.position-advances */
 __CPROVER_ensures((*pos == VF_IOS_cur && GOOD0) ==> ST->pos == POS0 + (long)(nByteToRead < AVAIL0 ? nByteToRead : AVAIL0))
+/*@ C16 : readString.failed-stream-reads-nothing */
+__CPROVER_ensures((*pos == VF_IOS_cur && !GOOD0) ==> (ST->fail && ST->pos == POS0))
+/*@ C16 : readString.position-stays-bounded */
+__CPROVER_ensures(ST->pos <= (POS0 > 0 ? POS0 : 0) + 0x80000000L + (long)VF_MAXFILE + 0x100)
+/*@ C02 C16 : readString.complete-read-keeps-stream-good */
+__CPROVER_ensures((*pos == VF_IOS_cur && GOOD0 && AVAIL0 >= nByteToRead) ==> (!ST->eof && !ST->fail))
 /*@ C16 : readString.work-bounded */ __CPROVER_ensures(ST->work <= __CPROVER_old(ST->work) + nByteToRead)
+#ifdef VF_TRACK_ALLOC
+/*@ C16 : readString.allocation-bounded-by-length */
+__CPROVER_ensures(vf_max_alloc <= (__CPROVER_old(vf_max_alloc) > (size_t)nByteToRead + 1 ? __CPROVER_old(vf_max_alloc) : (size_t)nByteToRead + 1))
+#endif
 /*@ C16 C10 : readString.nothrow */ __CPROVER_ensures(vf_exc == 0);
 
 void h_readString(void)
@@ -150,5 +190,48 @@ void h_readString(void)
   int *pos = (int *)vf_alloc(sizeof(int));
   int off;
   c3d__readString(out, self, n, off, pos);
+  VF_CANARY();
+}
+
+/* ---------------------------------------------------------------- Group::read : name, next-record offset, description.
+ * Weak precondition (C16): any file image, any stream state; nbCharInName is what readInt(1) can return. */
+#undef ST
+#define ST (&file->vf_base)
+int contract_Group__read(struct Group *self, struct c3d *file, int nbCharInName)
+__CPROVER_requires(vf_exc == 0 && __CPROVER_rw_ok(self, sizeof(*self)) && VF_STR_OK(self->_name) && VF_STR_OK(self->_description) &&
+                   __CPROVER_rw_ok(file, sizeof(*file)) && VF_ISTREAM_OK(ST) && nbCharInName >= -128 && nbCharInName <= 127 &&
+                   (void *)self != (void *)file)
+__CPROVER_assigns(self->_isLocked, self->_name.data, self->_name.size, self->_description.data, self->_description.size,
+                  ST->pos, ST->eof, ST->fail, ST->work VF_GHOST_ALLOC)
+__CPROVER_frees(self->_name.data, self->_description.data)
+/*@ C02 C04 : Group_read.lock-flag-is-sign-of-name-length */ __CPROVER_ensures(self->_isLocked == (nbCharInName < 0))
+/*@ C16 C13 : Group_read.name-valid */
+__CPROVER_ensures(self->_name.size <= 128 && __CPROVER_r_ok(self->_name.data, self->_name.size + 1) && self->_name.data[self->_name.size] == 0)
+/*@ C16 C13 C17 : Group_read.description-valid */
+__CPROVER_ensures(self->_description.size <= (__CPROVER_old(self->_description.size) > 255 ? __CPROVER_old(self->_description.size) : 255) &&
+                  __CPROVER_r_ok(self->_description.data, self->_description.size + 1))
+/*@ C02 C04 : Group_read.name-is-the-file-text */
+__CPROVER_ensures((GOOD0 && AVAIL0 >= 128 + 3 + 255 && vf_gc < self->_name.size) ==>
+                  (unsigned)(unsigned char)self->_name.data[vf_gc] == IMG((size_t)POS0 + vf_gc))
+/*@ C02 C04 C17 C01 : Group_read.description-length-is-unsigned-byte */
+__CPROVER_ensures((GOOD0 && AVAIL0 >= 128 + 3 + 255 && vf_gc < IMG((size_t)POS0 + (size_t)(nbCharInName < 0 ? -nbCharInName : nbCharInName) + 2) &&
+                   vf_gc < self->_description.size) ==>
+                  (unsigned)(unsigned char)self->_description.data[vf_gc] ==
+                      IMG((size_t)POS0 + (size_t)(nbCharInName < 0 ? -nbCharInName : nbCharInName) + 3 + vf_gc))
+/*@ C16 : Group_read.work-proportional */ __CPROVER_ensures(ST->work <= __CPROVER_old(ST->work) + 128 + 2 + 1 + 255)
+#ifdef VF_TRACK_ALLOC
+/*@ C16 : Group_read.allocation-bounded */
+__CPROVER_ensures(vf_max_alloc <= (__CPROVER_old(vf_max_alloc) > 256 ? __CPROVER_old(vf_max_alloc) : 256))
+#endif
+/*@ C16 C10 : Group_read.standard-outcome */ __CPROVER_ensures(vf_exc == 0 || vf_exc == VF_EXC_ios_failure);
+
+void h_Group_read(void)
+{
+  struct Group *self = (struct Group *)vf_alloc(sizeof(*self));
+  vf_mk_string(&self->_name);
+  vf_mk_string(&self->_description);
+  struct c3d *file = vf_mk_c3d_reader();
+  int n;
+  Group__read(self, file, n);
   VF_CANARY();
 }
